@@ -3,7 +3,7 @@ sys.path.insert(0, os.path.join(os.path.dirname(os.path.dirname(os.path.abspath(
 import vcheck
 
 T = "GeomV.C10."
-TIES = ["LongLat", "Merc", "TMerc", "UTM", "LCC", "AEA", "EqdC", "Krovak", "Registered", "Path", "Datum", "State", "Transform"]
+TIES = ["LongLat", "Merc", "TMerc", "UTM", "LCC", "AEA", "EqdC", "Krovak", "Registered", "Path", "Datum", "State", "Transform", "Axis"]
 CTORS = ["LongLat", "Merc", "TMerc", "UTM", "LCC", "AEA", "EqdC", "Krovak"]
 
 
@@ -17,7 +17,8 @@ def pregen(check):
                                 ("bodies", "GenBodies.lean", "def ctorBodies"),
                                 ("datum", "GenDatum.lean", "def datumShape"),
                                 ("state", "GenState.lean", "def nonlocalWrites"),
-                                ("transform", "GenTransform.lean", "def transform3 : Fn")):
+                                ("transform", "GenTransform.lean", "def transform3 : Fn"),
+                                ("axis", "GenAxis.lean", "def axisCases")):
         out = os.path.join(vcheck.LEAN, "GeomV", "C10", fname)
         with vcheck.Lock("go"):
             p = subprocess.run(["go", "run", "./cmd/c10/astwrites", os.path.join(vcheck.REPO, "proj"), mode], cwd=vcheck.HARNESS,
@@ -99,7 +100,7 @@ CFG = {
     ]] + [T + "tie_" + t for t in TIES] + [T + "tie_body_" + t for t in CTORS] + [T + n for n in [
         "C10_src_init_total", "C10_src_init_idempotent", "C10_src_init_frame",
         "C10_datum_frame", "C10_datum_never_written", "C10_datum_pure", "C10_datum_history", "C10_pure_with_datums", "C10_step_datums_frame", "C10_datum_panic_is_panic",
-        "tie_transform3", "tie_closure", "tie_checkNotWGS", "tie_TransformConsts",
+        "tie_transform3", "tie_closure", "tie_checkNotWGS", "tie_TransformConsts", "tie_Axis_cases",
         "C10_mem_refines", "C10_mem_refines_flat", "C10_mem_refines_nil", "C10_mem_vertices", "C10_mem_input_kept",
     ]],
     "trusted_base": [
@@ -108,6 +109,7 @@ CFG = {
         "Ctors.lean (constructors' writes): write SETS, VALUES and CONDITIONS are re-extracted from the Go source by go/ast on every run (GenWrites.lean, GenBodies.lean) and proved equal to the model (Ties/*.lean: tie_<Ctor> by decide, tie_body_<Ctor> for every SR and float semantics); trusted: the extractor's slicing rule (harness/cmd/c10/astwrites/body.go) and the naming of Go literals / math.* functions as uninterpreted POps operations (CtorIR.lean); also covered at run time by the state dumps (every SR = as parsed or after one constructor run) and the wd records",
         "Datum.lean (datumTransform on a heap of *datum objects) is a hand transcription with abstract callees; its save/defer-restore shape is re-extracted from the source on every run (GenDatum.lean, tie_Datum) and its callees' write-freedom by tie_Path; at run time the reflection dumps include the unexported datum",
         "Transformer.lean's stepNoHop/body (= transform3), step (= the closure returned by NewTransform) and notWGS (= checkNotWGS) are no longer only hand-modelled: the WHOLE bodies are re-translated from the Go source statement by statement on every run (astwrites mode transform -> GenTransform.lean, little language TransformIR.lean with Go's semantics for the point slice, err, shadowed/captured *SR variables, bound function values) and proved equal to the model for every heap, Core and float semantics (tie_transform3, tie_closure, tie_checkNotWGS, composed in tie_Transform; constants in tie_TransformConsts); trusted there: the translator harness/cmd/c10/astwrites/transform.go (one syntactic form per IR constructor, everything else `.other` = stuck) and the interpreter's reading of the abstract callees (Transformers() = Core.init on the cell, forward/inverse evaluated on the cell's record at call time, datumTransform = Core.dt, adjust_axis = the model's adjustAxis, Parse(\"WGS84\") = the registry cell, one `err` cell per body)",
+        "adjust_axis: the switch's case table (letter -> statements) is re-extracted on every run (astwrites mode axis -> GenAxis.lean) and, read as four known actions, proved equal to the model's axisStep for every axis string/point/index (tie_Axis_cases); the loop header, the continue guard, the v/t chain, the tag, the default case and the final return are pinned as source text (tie_Axis) — the reading of that text as three unrolled iterations with t = i is trusted",
         "model lean/GeomV/C10/{GeomTransform,Transformer}.lean is tied to /repo/transform.go and /repo/proj/{transform,adjust_axis}.go by the correspondence run on every check: "
         "Geom.Transform results compared exactly (bit patterns); transformer results compared bit-for-bit with the model instantiated by oracle tables "
         "(projection forward/inverse, constructor errors through the exported API; datumTransform through hook proj.VerifDatumTransform, build tag verif) filled from the real code, and the SR objects' full "
